@@ -1345,7 +1345,12 @@ func addF(x, y Float) (Float, error) {
 		return 0, exceptionalValueFloatOverflow
 	}
 
-	return x + y, nil
+	r := x + y
+	if math.IsInf(float64(r), 0) {
+		return 0, exceptionalValueFloatOverflow
+	}
+
+	return r, nil
 }
 
 func subF(x, y Float) (Float, error) {
